@@ -12,15 +12,16 @@ import TensorModel.Ext.Hooks
   Scalar function names (evaluated by the harness with Go's own conversions, `ext_compat.go`):
   * `tof64`   — the type-generic definition, which is literally `convToFloat64` (per-element path):
                 `float64(x)`; complex: `float64(real(x))`;
-  * `tof64b`  — what the *bulk* arm of `convToFloat64s` computes: the same for the integer types;
-                float32: NaN ↦ `math.NaN()`, ±Inf ↦ `math.Inf(±1)` (the same value, a NaN is a NaN);
-                complex: `cmplx.IsNaN(v)` ↦ NaN, `cmplx.IsInf(v)` ↦ **+Inf**, else the real part —
-                this differs from `tof64` whenever the imaginary part is NaN/±Inf or the real part is -Inf
-                (finding F91);
+  * `tof64b`  — what the float32 arm of the *bulk* routine `convToFloat64s` computes: NaN ↦ `math.NaN()`,
+                ±Inf ↦ `math.Inf(±1)`, else `float64(v)` (the same value, a NaN is a NaN). The arms of every other
+                element type are, as source text, the per-element conversion: `float64(v)` for the integer types,
+                `float64(real(v))` / `real(v)` for the complex types (the former finding F91: they used to answer NaN /
+                +Inf when *any* component was NaN / infinite) — the model gives them the name `tof64` (`bulkFn`);
   * `cvt.<dt>`  — the type-generic definition of float64 → T: Go's conversion `T(v)`; complex: `complex(T'(v), 0)`;
-  * `cvtm.<dt>` — what the arm of `convFromFloat64s` computes: integers: NaN/±Inf ↦ 0, else `T(v)`;
-                float32: NaN/±Inf special-cased to the same values; complex: NaN ↦ `cmplx.NaN()` = NaN+NaN·i,
-                ±Inf ↦ `cmplx.Inf()` = +Inf+Inf·i (sign of -Inf lost, imaginary part not 0: finding F92).
+  * `cvtm.<dt>` — what the arm of `convFromFloat64s` computes where it is not that expression: integers:
+                NaN/±Inf ↦ 0, else `T(v)`; float32: NaN/±Inf special-cased to the same values. The complex arms are
+                `complex(T'(v), 0)` for every value (the former finding F92: NaN ↦ NaN+NaN·i, ±Inf ↦ +Inf+Inf·i): the
+                model gives them the name `cvt.<dt>` (`fromFn`).
 -/
 namespace TM
 namespace Compat
@@ -56,6 +57,18 @@ structure MatOut where
   alias : Bool
 deriving Inhabited
 
+/-- the scalar function the arm of `convToFloat64s` for element type `dt` applies to a cell: the identity for
+    float64 (the window itself is returned), the special-casing loop for float32, and for every other type — the
+    integer and the complex types — the expression of the per-element switch `convToFloat64` -/
+def bulkFn (dt : String) : Val → Val :=
+  if dt == "f64" then id else if dt == "f32" then Val.app1 "tof64b" else Val.app1 "tof64"
+
+/-- the scalar function the arm of `convFromFloat64s` for element type `dt` applies to a matrix entry: for the
+    complex types `complex(T'(v), 0)`, which is the type-generic conversion; the integer and float32 arms
+    special-case the non-finite values -/
+def fromFn (dt : String) : Val → Val :=
+  if dt == "c64" || dt == "c128" then Val.app1 s!"cvt.{dt}" else Val.app1 s!"cvtm.{dt}"
+
 /-- `convToFloat64s(t)`: the arm of the element type over the raw storage window (storage order).
     Float64: the window itself is returned. -/
 def convToFloat64s (st : St) (t : Dense) : Res (List Val × Bool) :=
@@ -63,7 +76,7 @@ def convToFloat64s (st : St) (t : Dense) : Res (List Val × Bool) :=
   else do
     let raw ← t.rawCells st
     if t.dt == "f64" then pure (raw, true)
-    else pure (raw.map (Val.app1 "tof64b"), false)
+    else pure (raw.map (bulkFn t.dt), false)
 
 /-- the iterator arm: `for next, err = it.Next(); err == nil; … { data = append(data, convToFloat64(t.Get(next))) }` -/
 def convIter (st : St) (t : Dense) : Res (List Val) :=
@@ -121,7 +134,7 @@ def fromMat64 (s : St) (dt : String) (r c : Int) (cells : Array Val) (safe : Boo
       pure ⟨s, { ap := { shape := [r, c], strides := calcStrides [r, c], fin := true },
                  win := ⟨mb, 0, cells.size, cells.size⟩, dt := "f64" }, true⟩
   else
-    let (s, d) ← Dense.newRow s dt [r, c] (cells.map (Val.app1 s!"cvtm.{dt}"))
+    let (s, d) ← Dense.newRow s dt [r, c] (cells.map (fromFn dt))
     pure ⟨s, d, false⟩
 
 /-! ### native accessors -/
@@ -173,18 +186,7 @@ def nativeAccess (st : St) (t : Dense) (dims : Nat) (accDt : String) : Res (List
     pure (ls.flatten.flatten)
   | _, _ => throwErr "no accessor"
 
-/-! ### Known-defect regions -/
-
-/-- F91 (C17): the complex arms of the bulk path (`convToFloat64s`) do not compute the real part
-    (`convToFloat64`, the iterator path of the same function): any NaN component ↦ NaN, any infinite
-    component ↦ +Inf. -/
-def Excl_toMatComplexBulk (t : Dense) : Bool :=
-  (match t.shape with | [r, c] => rawIsRowMajor t r c | _ => false) && (t.dt == "c64" || t.dt == "c128")
-
-/-- F92 (C17): the complex arms of `convFromFloat64s` map NaN to NaN+NaN·i and ±Inf to +Inf+Inf·i
-    (value sets 1 and 5 contain non-finite matrix entries). -/
-def Excl_fromMatComplexNonFinite (dt vs : String) : Bool :=
-  (dt == "c64" || dt == "c128") && (vs == "1" || vs == "5")
+/-! ### Known-defect regions: none left (F90, F91, F92 are repaired) -/
 
 def intTypes : List String := ["i", "i8", "i16", "i32", "i64", "u", "u8", "u16", "u32", "u64"]
 
@@ -280,16 +282,7 @@ def stepS (psBefore psAfter : PState) (ss : SState) (_i : Nat) (toks : List Stri
     | _, _, _ => fin ss none
   | _ => fin ss none
 
-def excl (ps : PState) (toks : List String) : List String × Bool :=
-  match toks with
-  | "tomat" :: a :: _ =>
-    match ps.obj a with
-    | some (_, t) =>
-      ((if Excl_toMatComplexBulk t then ["F91"] else []), false)
-    | none => ([], false)
-  | "frommat" :: dt :: _ :: vs :: _ =>
-    ((if Excl_fromMatComplexNonFinite dt vs then ["F92"] else []), false)
-  | _ => ([], false)
+def excl (_ps : PState) (_toks : List String) : List String × Bool := ([], false)
 
 end Compat
 
